@@ -8,7 +8,7 @@ switch on a value whose provenance has no decision yet simply forks.
 """
 from .prov import (
     mk_field, mk_vfield, mk_phi, ckey, call_fn, subterms, term_str,
-    IDENT0, UNWRAP_OK, UNWRAP_SOME, CLONE, TAKE, WRAP, MAPERR, RESOK, UNWRAP_OR, BOXLIKE, LOCKS, MAPOK, TRYBRANCH, FROMRESIDUAL, mk_trybranch,
+    IDENT0, UNWRAP_OK, UNWRAP_SOME, CLONE, TAKE, WRAP, MAPERR, RESOK, UNWRAP_OR, BOXLIKE, LOCKS, TRY_LOCKS, MAPOK, TRYBRANCH, FROMRESIDUAL, mk_trybranch,
 )
 from .program import Site
 
@@ -206,7 +206,7 @@ class PathEnum:
         if args:
             a0 = args[0]
             if ck in LOCKS:
-                return ("lockres", a0)
+                return ("trylockres" if ck in TRY_LOCKS else "lockres", a0)
             if ck in TRYBRANCH:
                 return mk_trybranch(a0)
             if ck in FROMRESIDUAL:
@@ -389,6 +389,24 @@ class PathEnum:
                 if site.fn is None:
                     ev.target = self.operand(env, t["func"])
                 path.events.append(ev)
+                # in-place mutators of an Option / a place are writes as well
+                wv = None
+                if site.ck == "std::option::Option::take" and args:
+                    wv = ("agg", "adt:std::option::Option::None", ())
+                elif site.ck in ("std::option::Option::replace", "std::option::Option::insert", "std::option::Option::get_or_insert") and len(args) == 2:
+                    wv = ("agg", "adt:std::option::Option::Some", (args[1],), ("0",))
+                elif site.ck == "std::mem::replace" and len(args) == 2:
+                    wv = args[1]
+                elif site.ck == "std::mem::take" and args:
+                    wv = ("call", (body.path, bb), "std::default::Default::default")
+                if wv is not None:
+                    wev = Event("store", bb, "term", t["loc"]["line"])
+                    wev.target = args[0]
+                    wev.value = wv
+                    wev.body = body
+                    wev.depth = depth
+                    wev.chain = ev.chain
+                    path.events.append(wev)
                 # a fresh result invalidates decisions about the previous result of this site
                 if v > 1:
                     decisions = [(dk, dv) for (dk, dv) in decisions if not any(st[0] == "call" and st[1][:2] == (body.path, bb) and len(st[1]) == 2 for st in subterms(dk))]
